@@ -273,6 +273,36 @@ def run_case(c):
         for ln in lines:
             R.append(dict(ln, **{"in": {}, "ok": True, "err": "", "out": 0}))
         return R
+    if kind == "parts":
+        # content handed out by ONE library call to several parts (tracks of a composition, entries of a track): changing one
+        # part afterwards leaves the others as they were.  Only values are passed in (names), never objects of the caller.
+        def work():
+            from mingus.containers import Composition, Track
+            lines = []
+            def scenario(label, parts_of, ops):
+                parts = parts_of()
+                lines.append({"op": "new", "in": {"cls": label}, "objs": [canon(p) for p in parts], "defaults": ""})
+                for k, f in enumerate(ops):
+                    try:
+                        f(parts[0])
+                        outcome = "returned"
+                    except Exception as e:
+                        outcome = "raised:" + type(e).__name__
+                    lines.append({"op": "step", "in": {"cls": label, "k": k, "outcome": outcome}, "recv": 1, "objs": [canon(p) for p in parts], "defaults": ""})
+            def comp_tracks():
+                c = Composition(); c.add_track(Track()); c.add_track(Track()); c.add_track(Track())
+                c.selected_tracks = [0, 1, 2]
+                c.add_note("C"); c.add_note("E-5")
+                return list(c.tracks)
+            track_ops = [lambda t: t.transpose("3"), lambda t: t.augment(), lambda t: t.bars[-1][0][2].add_note("B"), lambda t: t.bars[-1][0][2].empty()]
+            scenario("tracks of a composition after add_note(name)", comp_tracks, track_ops)
+            def chord_entries():
+                t = Track().from_chords(["C", "F", "C", ["Am", "Am"]], 1)
+                return [e[2] for b in t.bars for e in b.bar if e[2] is not None]
+            nc_ops = [lambda n: n.transpose("2"), lambda n: n.add_note("B"), lambda n: n.notes[0].augment(), lambda n: n.empty()]
+            scenario("entries of a track built from a chord list", chord_entries, nc_ops)
+            return lines
+        return [{"op": "begin", "in": {}, "ok": True, "err": "", "out": 0}] + [dict(ln, ok=True, err="", out=0) for ln in in_child(work)]
     if kind == "args":
         return [{"op": "begin", "in": {}, "ok": True, "err": "", "out": 0}] + in_child(args_records)
     if kind == "siblings":
